@@ -35,6 +35,9 @@ type c09Cfg struct {
 	// Block: overflow strategy block without a timeout, a window output buffer of one batch and a sink that takes
 	// 20 ms of virtual time per batch: the window has to wait for its consumer and may not discard a cut batch
 	Block bool `json:"block_slow_consumer,omitempty"`
+	// Stats: GetStats, GetDetailedStats and Stream().ResetStats() are called after every row (statistics are not
+	// window state: the batches are what they are without these calls)
+	Stats bool `json:"stats_calls_between_rows,omitempty"`
 }
 
 func c09Opts(cfg c09Cfg) detOpts {
@@ -76,6 +79,9 @@ func c09Configs(tier string) []c09Cfg {
 	}
 	for _, n := range []int{1, 2} {
 		out = append(out, c09Cfg{N: n, Cols: 1, Eager: false, MaxL: maxL, Block: true})
+	}
+	for _, n := range []int{2, 3} {
+		out = append(out, c09Cfg{N: n, Cols: 1, Eager: true, MaxL: maxL - 1, Stats: true})
 	}
 	return out
 }
@@ -251,6 +257,13 @@ func c09Feed(cfg c09Cfg, seq []int) func(e *Env) {
 				row[kk] = vv
 			}
 			e.Emit(row)
+			if cfg.Stats {
+				e.S.GetStats()
+				e.S.GetDetailedStats()
+				if st := e.S.Stream(); st != nil {
+					st.ResetStats()
+				}
+			}
 			if cfg.GapMs > 0 {
 				e.Sleep(vtime.Duration(cfg.GapMs) * vtime.Millisecond)
 			}
